@@ -369,6 +369,13 @@ FastForward
 // hashgraph from a Block and associated Frame.
 func (c *core) fastForward(block *hg.Block, frame *hg.Frame) error {
 	c.logger.Debug("Fast Forward", frame.Round)
+
+	// The block and frame come from the network; reject structurally invalid
+	// ones (nil elements) before anything dereferences them.
+	if err := checkFrameStructure(block, frame); err != nil {
+		return err
+	}
+
 	peerSet := peers.NewPeerSet(frame.Peers)
 
 	// Check Block Signatures
@@ -412,6 +419,47 @@ func (c *core) fastForward(block *hg.Block, frame *hg.Frame) error {
 	}
 
 	return nil
+}
+
+// checkFrameStructure returns an error if the block or frame contain nil
+// elements.
+func checkFrameStructure(block *hg.Block, frame *hg.Frame) error {
+	if block == nil || frame == nil {
+		return fmt.Errorf("Invalid Frame: nil block or frame")
+	}
+	checkPeers := func(ps []*peers.Peer) error {
+		for _, p := range ps {
+			if p == nil {
+				return fmt.Errorf("Invalid Frame: nil peer")
+			}
+		}
+		return nil
+	}
+	checkEvents := func(fes []*hg.FrameEvent) error {
+		for _, fe := range fes {
+			if fe == nil || fe.Core == nil || len(fe.Core.Body.Parents) != 2 {
+				return fmt.Errorf("Invalid Frame: malformed event")
+			}
+		}
+		return nil
+	}
+	if err := checkPeers(frame.Peers); err != nil {
+		return err
+	}
+	for _, ps := range frame.PeerSets {
+		if err := checkPeers(ps); err != nil {
+			return err
+		}
+	}
+	for _, root := range frame.Roots {
+		if root == nil {
+			return fmt.Errorf("Invalid Frame: nil root")
+		}
+		if err := checkEvents(root.Events); err != nil {
+			return err
+		}
+	}
+	return checkEvents(frame.Events)
 }
 
 // getAnchorBlockWithFrame returns GetAnchorBlockWithFrame from the hashgraph
